@@ -95,6 +95,25 @@ def _staging_root(t):
     return None
 
 
+def _staging_fill(x):
+    """for (p = 0; p < n; p++) buf[p] = src[p]  with buf a private staging buffer: the segment (0, n * element size, src)"""
+    body = [y for y in x["body"] if y["e"] not in ("local",)]
+    if len(body) != 1 or body[0]["e"] != "store" or body[0]["op"] != "=" or x.get("lo") != ZERO or x.get("cmp") != "<" or \
+            sym.const_value(x.get("step")) != 1:
+        return None
+    st = body[0]
+    var = x["var"]
+    if st["lv"][0] != "idx" or st["lv"][2] != var:
+        return None
+    sr = _staging_root(sym.addr(sym.idx(st["lv"][1], ZERO)))
+    val = st["val"]
+    while val[0] == "cast":
+        val = val[2]
+    if sr is None or sr[1] != ZERO or val[0] != "idx" or val[2] != var or sym.contains(val[1], var):
+        return None
+    return sr[0], (ZERO, sym.mul(x["hi"], I(sr[2])), val[1])
+
+
 def _staged_writes(staged, ptr, size, line):
     """A write of a private staging buffer is the write of what was copied into it: the segments copied into the buffer since
     its last use (memcpy blocks and single elements) must tile [0, size); they are emitted in buffer order."""
@@ -183,6 +202,9 @@ def extract_ops(effects, direction):
         elif e == "inlined":
             sub = extract_ops(x["body"], direction)
             ops.extend(sub)
+        elif e == "loop" and _staging_fill(x) is not None:
+            sr, seg = _staging_fill(x)
+            staged.setdefault(sr, []).append(seg)
         elif e == "loop":
             sub = extract_ops(x["body"], direction)
             if sub:
